@@ -45,6 +45,8 @@ ASSUMPTIONS = [
     'account_sortkey on text that is not an account), which are counted in the evidence',
     'sweep oracle, collections by kind: set/frozenset interchangeable, list/tuple interchangeable, a dict under the marker '
     'subclass Metadata; a structured type (open, close) announces the beancount directive class of the same name',
+    'FROM-subquery stream: an OverflowError of datetime.date arithmetic (the model\'s dates are unbounded) is counted, not compared; '
+    'the row order of a subquery with a hidden ORDER BY is not modelled there (rows compared as multisets; order is C08)',
     'set-typed sample values hold str elements only (the set renderer measures len() of the elements)',
     'ledger-sweep statements are built as ASTs (TatSu is too slow for ~2000 statements per ledger); a sample of their '
     'BQL texts is parsed by the real parser on every run and compared with the built ASTs',
@@ -74,7 +76,12 @@ def binop_tag(sym, ta, tb):
 
 
 FUNCS = [('abs', 'FAbs', 1), ('neg', 'FNeg', 1), ('safediv', 'FSafediv', 2), ('length', 'FLength', 1), ('upper', 'FUpper', 1),
-         ('lower', 'FLower', 1), ('bool', 'FBool', 1), ('int', 'FIntOfDec', 1), ('decimal', 'FDecOfInt', 1), ('substr', 'FSubstr', 3)]
+         ('lower', 'FLower', 1), ('bool', 'FBool', 1), ('int', 'FIntOfDec', 1), ('decimal', 'FDecOfInt', 1), ('substr', 'FSubstr', 3),
+         # bld-link: the C18 library constructors (typed and untyped ones: an untyped one must never be typed by the model)
+         ('year', 'FYear', 1), ('month', 'FMonth', 1), ('day', 'FDay', 1), ('quarter', 'FQuarter', 1), ('weekday', 'FWeekday', 1),
+         ('date_diff', 'FDateDiff', 2), ('date_part', 'FDatePart', 2), ('date', 'FDateYmd', 3), ('date', 'FDate', 1),
+         ('str', 'FStr', 1), ('int', 'FInt', 1), ('decimal', 'FDecimal', 1), ('root', 'FRoot', 2), ('root', 'FRoot1', 1),
+         ('parent', 'FParent', 1), ('leaf', 'FLeaf', 1), ('round', 'FRoundInt', 2), ('round', 'FRoundInt1', 1)]
 ANYT = [T_INT, T_DEC, T_STR, T_DATE, T_BOOL, T_OBJ, T_NULL]
 
 
@@ -158,7 +165,7 @@ def gen_case(rng, depth):
             else:
                 r.append(values.gen_value(rng, PY[t], null_p))
         rows.append(tuple(r))
-    g = exprgen.Gen(rng, cols, max_depth=depth)
+    g = exprgen.Gen(rng, cols, max_depth=depth, lib=True)
     # exprgen skips object columns; they are only reachable through `operand`
     g.objcols = [(i, n) for i, (n, t) in enumerate(cols) if t == T_OBJ]
     if rng.random() < 0.5:
@@ -256,7 +263,7 @@ def gen_desc_case(rng, depth):
     while c is None or c['kind'] != 'welltyped':
         c = gen_case(rng, depth)
     # exprgen numbers columns by position in the list it was given: keep the full list so ECol indexes stay right
-    g = exprgen.Gen(rng, c['cols'], max_depth=depth)
+    g = exprgen.Gen(rng, c['cols'], max_depth=depth, lib=True)
     targets, texts = [], set()
     for k in range(rng.randint(1, 4)):
         e = g.expr(rng.choice(exprgen.ALL_TYPES))
@@ -326,9 +333,217 @@ def desc_compare(c, i, m):
     return None
 
 
+# ------------------------------------------------------------------ A''. FROM-subqueries (fix-D)
+# A query over `FROM (SELECT ...)` announces, for a subquery column, the datatype of the inner target of that name
+# (SubqueryTable) and has to deliver that target's values.  Layers of SELECTs are generated bottom-up: layer 0 over
+# the table, layer j+1 over the visible columns of layer j (datatypes differ between the columns by construction,
+# the enclosing query reads them in another order, through expressions, through `*`, under WHERE, under an
+# aggregate; inner layers may carry hidden ORDER BY targets, which are not columns of the subquery table).
+# Model: description of layer j+1 = `description_out <types of layer j> <targets of j+1>` (and the model's own
+# description of layer j must be those types); values = the outer expression with every column reference replaced
+# by the inner target it names, evaluated over the TABLE rows (eval_c_out) - no subquery machinery on that side.
+
+import re as _re
+
+_ECOL = _re.compile(r'\(ECol (\d+)%nat\)')
+SUBQ_NAMES = ['p', 'q', 'u']
+TCODE = {T_INT: 1, T_DEC: 2, T_STR: 3, T_DATE: 4, T_BOOL: 5}
+
+
+def _subst(coq, prev):
+    return _ECOL.sub(lambda m: prev[int(m.group(1))], coq)
+
+
+def gen_subq_case(rng, depth):
+    c = None
+    while c is None or c['kind'] != 'welltyped' or not any(t != T_OBJ for _, t in c['cols']):
+        c = gen_case(rng, depth)
+    cols = [(n, t) for n, t in c['cols']]
+    nlayers = rng.choice([2, 2, 2, 3])
+    shape = rng.choice(['exprs', 'exprs', 'permute', 'star', 'where', 'agg'])
+    layers = []
+    cur = cols                       # columns visible to the layer being generated [(name, type)]
+    for j in range(nlayers):
+        outer = j == nlayers - 1
+        g = exprgen.Gen(rng, cur, max_depth=depth, lib=True)
+        L = {'targets': [], 'hidden': [], 'where': None, 'star': False, 'agg': None}
+        typed = [(i, n, t) for i, (n, t) in enumerate(cur) if t != T_OBJ]
+        if not outer:
+            # 2-5 visible columns, datatypes cycling through a shuffled list so that neighbours differ
+            order = rng.sample(exprgen.ALL_TYPES, len(exprgen.ALL_TYPES))
+            k = rng.randint(2, 5)
+            names = set()
+            for x in range(k):
+                t = order[x % len(order)]
+                if j > 0 and rng.random() < 0.6 and any(tt == t for _, _, tt in typed):
+                    e = g.col(t)
+                else:
+                    e = g.expr(t, rng.randint(0, depth))
+                plain = e.depth == 0 and e.cols and rng.random() < 0.5
+                name = e.text if plain else f'{SUBQ_NAMES[j]}{x}'
+                if name in names:
+                    continue
+                names.add(name)
+                L['targets'].append([e.text, e.coq, None if plain else name, name, e.type])
+            if len(L['targets']) < 2:
+                e = g.expr(rng.choice(exprgen.ALL_TYPES), 1)
+                L['targets'].append([e.text, e.coq, f'{SUBQ_NAMES[j]}9', f'{SUBQ_NAMES[j]}9', e.type])
+            if rng.random() < 0.3:
+                e = g.expr(rng.choice([T_INT, T_STR, T_DATE, T_DEC]), 1)
+                if e.depth >= 1 and e.text not in {t[0] for t in L['targets']}:
+                    L['hidden'].append([e.text, e.coq])
+            if rng.random() < 0.2:
+                w = g.expr(T_BOOL, 1)
+                L['where'] = [w.text, w.coq]
+        elif shape == 'star':
+            L['star'] = True
+            L['targets'] = [[n, f'(ECol {i}%nat)', None, n, t] for i, (n, t) in enumerate(cur)]
+        elif shape == 'permute':
+            idx = list(range(len(cur)))
+            rng.shuffle(idx)
+            idx = idx[:rng.randint(1, len(idx))]
+            if len(cur) > 1 and idx == [len(cur) - 1]:
+                idx = [0]
+            L['targets'] = [[cur[i][0], f'(ECol {i}%nat)', None, cur[i][0], cur[i][1]] for i in idx]
+        elif shape == 'agg':
+            e = g.expr(rng.choice([t for _, _, t in typed]), rng.randint(0, 1))
+            name, tag = rng.choice(AGGS)
+            L['agg'] = [name, tag]
+            L['targets'] = [[e.text, e.coq, 'r', 'r', e.type]]
+        else:
+            texts = set()
+            for x in range(rng.randint(1, 3)):
+                t = rng.choice([tt for _, _, tt in typed] + exprgen.ALL_TYPES)
+                e = g.expr(t, rng.randint(0, depth))
+                if e.text in texts:
+                    continue
+                texts.add(e.text)
+                alias = f'r{x}' if (rng.random() < 0.5 or not e.cols) else None
+                L['targets'].append([e.text, e.coq, alias, alias or target_name(e.text), e.type])
+            if shape == 'where':
+                w = g.expr(T_BOOL, rng.randint(1, 2))
+                L['where'] = [w.text, w.coq]
+        layers.append(L)
+        cur = [(t[3], t[4]) for t in L['targets']]
+    if shape == 'agg':
+        for L in layers:
+            L['hidden'], L['where'] = [], None       # first/last depend on the order, the fold runs over all rows
+    return {'cols': cols, 'rows': c['rows'], 'layers': layers, 'shape': shape, 'depth': depth}
+
+
+def _layer_sql(L, source):
+    if L['star']:
+        sel = '*'
+    elif L['agg']:
+        sel = f'{L["agg"][0]}({L["targets"][0][0]}) AS r'
+    else:
+        sel = ', '.join(t[0] + (f' AS {t[2]}' if t[2] else '') for t in L['targets'])
+    s = f'SELECT {sel} FROM {source}'
+    if L['where']:
+        s += f' WHERE {L["where"][0]}'
+    if L['hidden']:
+        s += ' ORDER BY ' + ', '.join(h[0] for h in L['hidden'])
+    return s
+
+
+def subq_statement(c):
+    s = _layer_sql(c['layers'][0], '#t')
+    for L in c['layers'][1:]:
+        s = _layer_sql(L, f'({s})')
+    return s
+
+
+def run_subq_impl(c):
+    t = impl.make_table('t', [(n, PYT[ty]) for n, ty in c['cols']], c['rows'])
+    conn = impl.connection({'t': t})
+    try:
+        curs = conn.execute(subq_statement(c))
+        rows = curs.fetchall()
+    except impl.beanquery.CompilationError as e:
+        return ['rejected', str(e)[:150]]
+    except Exception as e:  # noqa: BLE001
+        return ['exception', type(e).__name__, str(e)[:150]]
+    desc = curs.description
+    ok = all(len(r) == len(desc) for r in rows) and all(S.conforms(v, col.datatype) for r in rows for v, col in zip(r, desc))
+    return ['ok', [[[ord(ch) for ch in (col.name or '')], TY_CODE.get(col.datatype, -1)] for col in desc], int(ok),
+            [[values.canon(v) for v in r] for r in rows]]
+
+
+def subq_model_expr(c):
+    """OL [descriptions per layer; values of the outer targets per table row; values of every WHERE per table row]"""
+    tys = clist([COQ_TY[t] for _, t in c['cols']])
+    rows = values.rows_to_coq(c['rows'])
+    descs, wheres = [], []
+    prev = None                      # coq of the previous layer's visible columns, over the TABLE columns
+    for L in c['layers']:
+        ts = [f'({t[1]}, Some {core.cstr(t[3])})' for t in L['targets']] + [f'({h[1]}, None)' for h in L['hidden']]
+        descs.append(f'description_out {tys} {clist(ts)}')
+        if L['where']:
+            wheres.append(f'eval_c_out {base_tys(c)} {L["where"][1] if prev is None else _subst(L["where"][1], prev)} {rows}')
+        prev = [t[1] if prev is None else _subst(t[1], prev) for t in L['targets']]
+        tys = clist([COQ_TY[t[4]] for t in L['targets']])
+    if c['layers'][-1]['agg']:
+        tag = c['layers'][-1]['agg'][1]
+        if tag == 'ASum':
+            tag = f'(ASum {"(VDec (mkdec false 0 0))" if c["layers"][-1]["targets"][0][4] == T_DEC else "(VInt 0)"})'
+        vals = f'agg_typing_out {base_tys(c)} {{| afun := {tag}; aarg := {prev[0]} |}} {rows}'
+    else:
+        vals = clist([f'eval_c_out {base_tys(c)} {e} {rows}' for e in prev])
+        vals = f'OL {vals}'
+    return f'OL [OL {clist(descs)}; {vals}; OL {clist(wheres)}]'
+
+
+def base_tys(c):
+    return clist([COQ_TY[t] for _, t in c['cols']])
+
+
+def subq_compare(c, i, m):
+    mdescs, mvals, mwheres = m
+    layers = c['layers']
+    if i[0] == 'rejected' and layers[-1]['agg'] and all(mdescs) and not mvals[0]:
+        return None                  # an aggregate without an overload for that datatype: rejected on both sides
+    if i[0] == 'exception' and i[1] == 'OverflowError':
+        return None                  # datetime.date / timedelta range: the model's dates are unbounded (counted in the evidence)
+    if i[0] in ('exception', 'rejected'):
+        return f'implementation {"raised " + i[1] + ": " + i[2] if i[0] == "exception" else "rejects: " + i[1]}'
+    # the model's own description of every layer = the (name, type) the next layer was generated over
+    for L, d in zip(layers, mdescs):
+        if not d:
+            return 'the model does not type a layer the generator built well typed'
+        want = [[[ord(ch) for ch in t[3]], TCODE[t[4]]] for t in L['targets']]
+        if not L['agg'] and d[0] != want:
+            return f'harness: the model describes a layer as {d[0]}, generated as {want}'
+    _, idesc, iok, irows = i
+    if not iok:
+        return 'a delivered cell does not inhabit the datatype announced at its position'
+    if layers[-1]['agg']:
+        mty = mvals[0][0] if mvals[0] else None
+        if mty is None:
+            return 'the model does not type the aggregate the compiler accepts'
+        if [d[1] for d in idesc] != [mty]:
+            return f'announced datatype code {[d[1] for d in idesc]} differs from the model\'s {mty}'
+        got = irows[0][0] if irows else None
+        if got is not None and got != mvals[2]:
+            return f'finalised value {got} differs from the model fold over the substituted expression {mvals[2]}'
+        return None
+    if idesc != mdescs[-1][0]:
+        return f'cursor description {idesc} differs from the (name, dtype) of the outer targets over the subquery columns {mdescs[-1][0]}'
+    keep = [all(w[r] == [1, 1] for w in mwheres) for r in range(len(c['rows']))]
+    want = [[col[r] for col in mvals] for r in range(len(c['rows'])) if keep[r]]
+    if any(L['hidden'] for L in layers):
+        irows, want = sorted(irows, key=repr), sorted(want, key=repr)
+    if irows != want:
+        return f'rows {irows} differ from the outer expressions over the inner targets evaluated on the table rows {want}'
+    return None
+
+
+def subq_model_many(cases, tag='c04q'):
+    return core.coq_eval(tag, IMPORTS, [subq_model_expr(c) for c in cases], shard=100)
+
+
 # ------------------------------------------------------------------ B. aggregates
 
-AGGS = [('count', 'ACount'), ('sum', 'ASum'), ('first', 'AFirst'), ('last', 'ALast'), ('min', 'AMin'), ('max', 'AMax')]
+AGGS =[('count', 'ACount'), ('sum', 'ASum'), ('first', 'AFirst'), ('last', 'ALast'), ('min', 'AMin'), ('max', 'AMax')]
 
 
 def gen_agg_case(rng, depth):
@@ -461,6 +676,38 @@ def run(tier, rng):
             violations.append(core.Violation('description-model', f'{desc_statement(c)} over {c["cols"]}: {why}',
                                              {'case': c, 'impl': i, 'model': m, 'desc': True}, signature=sig))
     lap('A2 done')
+    # ---- A'': FROM-subqueries
+    nq = 400 if quick else 4000
+    qcases = [gen_subq_case(rng, rng.randint(0, 2)) for _ in range(nq)]
+    qimpl = core.pmap(run_subq_impl, qcases)
+    qmodel = subq_model_many(qcases)
+    qseen = set()
+    subq_hist = {'shape': {}, 'layers': {}, 'inner_columns': {}, 'inner_hidden_order_by': 0, 'where': 0,
+                 'outer_reads_non_last_column_of_other_type': 0, 'rows_compared': 0, 'outcomes': {}}
+    for c, i, m in zip(qcases, qimpl, qmodel):
+        subq_hist['shape'][c['shape']] = subq_hist['shape'].get(c['shape'], 0) + 1
+        subq_hist['layers'][len(c['layers'])] = subq_hist['layers'].get(len(c['layers']), 0) + 1
+        nin = len(c['layers'][-2]['targets'])
+        subq_hist['inner_columns'][nin] = subq_hist['inner_columns'].get(nin, 0) + 1
+        subq_hist['inner_hidden_order_by'] += any(L['hidden'] for L in c['layers'][:-1])
+        subq_hist['where'] += any(L['where'] for L in c['layers'])
+        inner = c['layers'][-2]['targets']
+        used = {int(x) for t in c['layers'][-1]['targets'] for x in _ECOL.findall(t[1])}
+        subq_hist['outer_reads_non_last_column_of_other_type'] += any(k < len(inner) - 1 and inner[k][4] != inner[-1][4] for k in used)
+        subq_hist['rows_compared'] += len(i[3]) if i[0] == 'ok' else 0
+        ock = i[0] if i[0] != 'exception' else 'exception:' + i[1]
+        subq_hist['outcomes'][ock] = subq_hist['outcomes'].get(ock, 0) + 1
+        why = subq_compare(c, i, m)
+        if why and len(qseen) < 3:
+            small = shrink_rows(c, lambda x: subq_compare(x, run_subq_impl(x), subq_model_many([x], tag='c04qs')[0]) is not None)
+            why = subq_compare(small, run_subq_impl(small), subq_model_many([small], tag='c04qs')[0]) or why
+            sig = 'subquery-typing:' + subq_statement(small) + ' cols=' + repr(small['cols'])
+            if sig in qseen:
+                continue
+            qseen.add(sig)
+            violations.append(core.Violation('subquery-typing-model', f'{subq_statement(small)} over {small["cols"]} rows {small["rows"]}: {why}',
+                                             {'case': small, 'impl': run_subq_impl(small), 'subq': True}, signature=sig))
+    lap('A3 done')
     # ---- B
     na = 300 if quick else 4000
     acases = [gen_agg_case(rng, rng.randint(0, 2)) for _ in range(na)]
@@ -573,22 +820,25 @@ def run(tier, rng):
 
     s1cells = sum(r['cells'] for r in r1) + sum(r['cells'] for r in rin)
     cov.update({
-        'evaluations': len(cases) + len(acases) + len(dcases) + sum(r['rows'] for r in r1) + sum(r['rows'] for r in rin) + lq,
+        'evaluations': len(cases) + len(acases) + len(dcases) + len(qcases) + sum(r['rows'] for r in r1) + sum(r['rows'] for r in rin) + lq,
         'distinct_nontrivial': len(nontrivial),
         'rule': 'A: typed expression trees (exprgen, depth<=%d) and single-node mutants with operand dtypes drawn from '
                 '{int,decimal,str,date,bool,object,NULL} over tables of 3-7 columns: description datatype vs type_of, rejection vs None, '
-                'every cell vs announced type on both sides; B: count/sum/first/last/min/max/count(*) of typed expressions over 0-7 rows; '
+                'every cell vs announced type on both sides; A\'\': 2-3 nested SELECT layers (FROM-subqueries whose columns have different datatypes, read '
+                'permuted / through expressions / * / WHERE / under an aggregate, inner hidden ORDER BY): description vs description_out over the inner '
+                'types, rows vs the outer expressions with the inner targets substituted, evaluated on the table rows; B: count/sum/first/last/min/max/count(*) of typed expressions over 0-7 rows; '
                 'sweep 1: every registry overload x its declared operand types (any -> 13 concrete types, bool for int, Inventory for dict) '
                 'x sample values, NULL in each position, all NULL, aggregates over 8+ groups, literal-constant variant; sweep 1b: IN/NOT IN '
                 'x 13x13 operand types; sweep 2: every column, attribute path and subscript of the 10 Beancount tables and every overload '
                 'fed with them over generated ledgers (0-16 dated directives of every kind + opens, commodities); sweep 3: render_text '
                 '(plain and expand+boxed) on every result; non-trivial = distinct (expression, schema) of depth >= 1 in A' % depth,
         'samples': [statement(c) for c in cases[:4]] + [agg_statement(c) for c in acases[:2]] + [r['sql'] for r in r1[:3]],
-        'traces_validated_against_impl': len(cases) + len(acases) + len(dcases),
+        'traces_validated_against_impl': len(cases) + len(acases) + len(dcases) + len(qcases),
         'A_expression_cases': len(cases), 'A_kinds': kinds,
         'A_implicit_cast_cases_typed_and_value_compared': sum(1 for c, i, m in zip(cases, impl_out, model_out)
                                                               if c['kind'] == 'cast' and i[0] == 'ok' and m[0] is not None), 'A_outcomes': outcomes, 'A_operator_histogram': dict(sorted(ophist.items())),
         'Aprime_description_cases': len(dcases), 'Aprime_histogram': desc_hist,
+        'Asubquery_cases': len(qcases), 'Asubquery_histogram': subq_hist, 'Asubquery_samples': [subq_statement(c) for c in qcases[:3]],
         'B_aggregate_cases': len(acases), 'B_histogram': dict(sorted(agg_hist.items())),
         'sweep1_overload_instances': len(s1), 'sweep1_status': status, 'sweep1b_pairs': len(sin),
         'sweep1_cells_checked': s1cells, 'sweep1_rows': sum(r['rows'] for r in r1) + sum(r['rows'] for r in rin),
@@ -630,6 +880,9 @@ def _unjson_rows(c):
 
 
 def replay(rec):
+    if 'case' in rec and rec.get('subq'):
+        c = _unjson_rows(rec['case'])
+        return subq_compare(c, run_subq_impl(c), subq_model_many([c], tag='c04r')[0]) is None
     if 'case' in rec and rec.get('desc'):
         c = _unjson_rows(rec['case'])
         c['targets'] = [tuple(t) for t in c['targets']]
